@@ -1,7 +1,7 @@
 #!/bin/bash
 # usage: import_seed.sh <worktree-id> <seed-name> <property> — copy a sub-agent's deliverables, re-verify in its worktree, run the check on /repo with the patch applied, remove the worktree
 WT=/tmp/seed-$1; NAME=$2; PROP=$3
-mkdir -p /verif/seeded/$NAME && cp $WT/_seed/* /verif/seeded/$NAME/ || exit 3
+mkdir -p /verif/seeded/$NAME && cp -r $WT/_seed/* /verif/seeded/$NAME/ || exit 3
 V=$(timeout 1500 /verif/verify_seed.sh $WT $NAME 2>&1 | tail -1); echo "$V"
 T=$(timeout 3000 /verif/seedtest.sh $NAME $PROP 2>&1 | tail -4 | cut -c1-260); echo "$T"
 HEADC=$(git -C $WT rev-parse --short HEAD)
